@@ -106,11 +106,15 @@ def c11(tier, seed, replay_path=None):
     # design: the fan-out model, every interleaving of the per-channel deliveries, one blocked + one failing channel
     d = c.sub("cfg")
     cfg = os.path.join(d, "notify.cfg")
-    c.write_cfg(cfg, "NSpec", {"Channels": c.tla_set(["plain", "ws", "hook"] + (["slow"] if tier == "thorough" else [])),
-                               "MaxSub": 3}, ["NoEventWithoutStore", "AtMostOnce", "ExactlyOncePerChannel", "IngestionNeverWaits", "ChannelsIndependent"],
-                ["EventuallyDelivered"], extra=["CONSTANT Mode <- ModeV"])
-    r = c.tlc_must_pass(c.run_tlc("MC_Notify", cfg, workers=c.NCPU, timeout=1800), "MC_Notify")
-    c.log("  tlc notify: %d distinct states %.1fs" % (r.distinct, r.wall))
+    # quick: three channels, three submissions (109 k states, 11 s).  Thorough: that, and four channels (one slow) with two
+    # submissions; four channels x three submissions, or three x four, did not finish within 25 / 5 minutes (measured)
+    INV_N = ["NoEventWithoutStore", "AtMostOnce", "ExactlyOncePerChannel", "IngestionNeverWaits", "ChannelsIndependent"]
+    for chans, ms in ([(["plain", "ws", "hook"], 3)] + ([(["plain", "ws", "hook", "slow"], 2)] if tier == "thorough" else [])):
+        c.write_cfg(cfg, "NSpec", {"Channels": c.tla_set(chans), "MaxSub": ms}, INV_N, ["EventuallyDelivered"], extra=["CONSTANT Mode <- ModeV"])
+        r = c.tlc_must_pass(c.run_tlc("MC_Notify", cfg, workers=c.NCPU, timeout=1800), "MC_Notify")
+        c.log("  tlc notify %d channels x %d submissions: %d distinct states %.1fs" % (len(chans), ms, r.distinct, r.wall))
+        runs.append(r)
+    r = runs.pop()
     runs.append(r)
     # conformance: C01-generator histories (duplicates, forbidden, orphans, reorgs, restarts) and injected store failures
     ns = (1500, 1000) if tier == "quick" else (12000, 8000)
